@@ -55,6 +55,7 @@ static void* arenaAlloc(size_t n) {
   mapArena();
   size_t user = (n + 15) & ~(size_t)15; if (!user) user = 16;
   size_t total = 16 /*redzone*/ + sizeof(Hdr) + user + 16;
+  if (n > (256u << 20)) { fail("mem/absurd_allocation_size", "allocation of %zu bytes requested (garbage length?)", n); return malloc(16); }
   if (bump + total > ARENA_SIZE) stubError("arena exhausted");
   char* base = ARENA + bump; bump += total;
   Hdr* h = (Hdr*)(base + 16);
